@@ -21,7 +21,7 @@ func TestProp(t *testing.T) {
 	rep.Rule("question sequences: (okta) 10-30 steps of ask(user, permuted group subset, sometimes with a duplicate) / directory change / inner error / sleep past a 30-50 ms TTL against the real GroupCache+LocalCache, 12% with three concurrent askers; (okta-probe) pairs of different questions whose joined cache keys could coincide; (google, cognito) 5-9 steps of ask / concurrent ask pair / directory change / direct refresh / failing direct check / held fill against the real provider + real PopulateMembers + real FillCache, groups pre-filled, failing or held. FillCache histories: (fc-seq) 10-24 scripted Update/Get steps with fill outcomes ok/error/not-found plus one refresh loop; (fc-conc) 1-3 groups, held fills, 2-4 free-running workers, 35% with refresh loops (5-20 ms) and Stop. distinct = per question (user class, set size, relation to earlier questions, hit/miss/error) resp. (set size, definitely cached, definitely uncached, source) sequences; for FillCache the per-group operation shape (admitted/rejected begins, store/keep/delete ends, gets by version rank, overlap marks)")
 	rep.Assume("the fake directory answers exactly as logged; a member list carries a marker member naming group and version so that a cached list identifies the directory answer it copies")
 	rep.Assume("okta stream: group names are strings GetProfile can produce (strings.Split of the form value on ','): no commas, the empty name never alone; comma-containing names are probed separately (okta-probe) and carry their input class in the signature")
-	rep.Assume("after Stop a refresh loop may still take ticks that were ready together with the stop signal (Go select is random among ready cases): up to 5 periodic fills per group after Stop are tolerated, a loop that does not stop produces one per TTL without end")
+	rep.Assume("after Stop a refresh loop may still take ticks that were ready together with the stop signal (Go select is random among ready cases): the number of periodic fills after Stop is geometric when iterations are slower than the TTL; up to 20 per group are tolerated, a loop that does not stop passes any bound")
 	rep.Assume("stamps come from one atomic counter per case; Update call -> fill entry brackets the first lock acquisition, fill exit -> Update return the second; for fills made by loop goroutines the unobservable Update call/return are replaced by the neighbouring fill stamps of the same goroutine (wider intervals, still sound)")
 
 	type streamDef struct {
